@@ -380,6 +380,51 @@ func keepRule(repo string) [][2]string {
 	return res
 }
 
+// hub/hub_connections.go: in ServeHTTP and connectFoundService the statements from keepThisConnection to
+// registerConnection run under one mutex that is locked before and released by a deferred unlock
+func establishAtomic(repo string) [][2]string {
+	f := parse(repo, "hub/hub_connections.go")
+	res := [][2]string{}
+	for _, name := range []string{"ServeHTTP", "connectFoundService"} {
+		fd := funcDecl(f, name)
+		verdict := "missing"
+		if fd != nil {
+			verdict = "unguarded"
+			locked := ""
+			deferred := false
+			keepSeen := false
+			for _, st := range fd.Body.List {
+				if es, ok := st.(*ast.ExprStmt); ok {
+					if c, ok := es.X.(*ast.CallExpr); ok {
+						if se, ok := c.Fun.(*ast.SelectorExpr); ok && se.Sel.Name == "Lock" && !keepSeen {
+							locked = sel(se.X)
+						}
+						if se, ok := c.Fun.(*ast.SelectorExpr); ok && se.Sel.Name == "Unlock" && sel(se.X) == locked && !deferred {
+							locked = ""
+						}
+					}
+				}
+				if ds, ok := st.(*ast.DeferStmt); ok {
+					if se, ok := ds.Call.Fun.(*ast.SelectorExpr); ok && se.Sel.Name == "Unlock" && sel(se.X) == locked && locked != "" {
+						deferred = true
+					}
+				}
+				if containsCall(st, "keepThisConnection") {
+					keepSeen = true
+					if locked == "" || !deferred {
+						verdict = "decision-outside-lock"
+					}
+				}
+				if containsCall(st, "registerConnection") && keepSeen && locked != "" && deferred && verdict == "unguarded" {
+					verdict = "under " + locked
+				}
+			}
+		}
+		res = append(res, [2]string{name, verdict})
+	}
+	return res
+}
+
 func containsCall(n ast.Node, name string) bool {
 	found := false
 	ast.Inspect(n, func(x ast.Node) bool {
@@ -816,6 +861,13 @@ func main() {
 	}
 	w("]\n\n/-- hub/hub_connections.go keepThisConnection: keep the new connection iff ... -/\ndef keepRule : List (String × String) :=\n  [")
 	for i, p := range keepRule(*repo) {
+		if i > 0 {
+			w(", ")
+		}
+		w("(%s, %s)", leanStr(p[0]), leanStr(p[1]))
+	}
+	w("]\n\n/-- hub/hub_connections.go: is the decision about a new connection taken under the mutex its registration is made under -/\ndef establishAtomic : List (String × String) :=\n  [")
+	for i, p := range establishAtomic(*repo) {
 		if i > 0 {
 			w(", ")
 		}
